@@ -223,6 +223,20 @@ Theorem C04_rs_transfer_junk_independent (S : Scalar) (eps_strong eps_trunc : S)
 Proof. exact (rs_transfer_junk_independent eps_strong eps_trunc dt A j1 j2). Qed.
 Print Assumptions C04_rs_transfer_junk_independent.
 
+(* ---------------------------------------------------------------- 3b. smoothed_aggr_emin (field)
+   Proved: the filtered matrix the code assembles has the dense semantics A_F of the SA formula and
+   its diagonal vector is D (one stored diagonal entry per row).
+   FULL STATEMENT (unproved; the model emin_transfer is tied exactly to the code and the formulas are
+   checked on every implementation output by the oracle emin_formula_ok):
+     mget P i j = emin_P_spec A st Pt i j   (P = P_t - D^-1 A_F P_t Omega)
+     mget R j i = emin_R_spec A st Pt j i   (R = P_t^T - Omega P_t^T A_F D^-1)
+     Omega_j = <(A_F P_t)_j, (A_F D^-1 A_F P_t)_j> / <(A_F D^-1 A_F P_t)_j, (A_F D^-1 A_F P_t)_j>. *)
+Theorem C04_emin_filter_dense_partial (S : Scalar) (Sft : Sfield S) (A : crs S) st i k : i < nrows A ->
+  length (filter (fun e : nat * S * bool => Nat.eqb (fst (fst e)) i) (zip_row (nth i (rows A) []) (nth i st []))) = 1%nat ->
+  mget (fst (emin_filter A st)) i k = sa_AF A st i k /\ vget (snd (emin_filter A st)) i = sa_D A st i.
+Proof. exact (emin_filter_dense S Sft A st i k). Qed.
+Print Assumptions C04_emin_filter_dense_partial.
+
 (* ---------------------------------------------------------------- 5. pointwise aggregates / lifting *)
 (* by construction: the b unknowns of node ip get ids b*pw_id(ip)+k, and they are
    negative exactly for removed nodes -- "the unknowns of one grid node travel together" *)
